@@ -23,6 +23,13 @@ func guard[C any](check func(C, *ev.Rec) *ev.Failure, c C, rec *ev.Rec) (f *ev.F
 			msg := fmt.Sprint(r)
 			st := string(debug.Stack())
 			site := panicSite(st)
+			if site == "harness" {
+				// no frame of the library under test on the stack: the check
+				// itself is at fault; never reported against the library
+				rec.Incomplete("the check panicked outside the library under test: " + msg + "\n" + st)
+				f = nil
+				return
+			}
 			f = ev.Fail("panic: "+msg+"\n"+st, "result", "panic", "panic", firstLine(msg), "site", site)
 		}
 	}()
